@@ -258,6 +258,8 @@ class SpecEval:
         if op == '*':
             return SV(x.t * y.t, x.ty)
         if op == '/':
+            if z3.is_real(x.t) and not getattr(self.V, 'pure_arith', False):
+                return SV(self.w.fdiv(x.t, y.t), x.ty)
             return SV(x.t / y.t, x.ty)
         if op == '%':
             return SV(x.t % y.t, x.ty)
